@@ -633,7 +633,7 @@ def manhattan(A, B):
     return np.abs(A[:, None, :] - B[None, :, :]).sum(axis=2)
 
 
-def make_strategy(name, mgr_kind, b, seed, ffb=False, small_window=True, default_mgr=False):
+def make_strategy(name, mgr_kind, b, seed, ffb=False, small_window=True, default_mgr=False, metric=None):
     from skactiveml import stream
 
     cls = getattr(stream, name)
@@ -654,6 +654,9 @@ def make_strategy(name, mgr_kind, b, seed, ffb=False, small_window=True, default
         kw["dist_func"] = manhattan
         if small_window:
             kw["window_size"] = 3
+    if name == "StreamProbabilisticAL" and metric is not None:
+        kw["metric"] = metric
+        kw["metric_dict"] = {"gamma": 0.5}
     return cls(**kw)
 
 
@@ -670,8 +673,62 @@ def get_clf():
     return _CLF["clf"]
 
 
-def strat_query(qs, cand):
-    return qs.query(cand, clf=get_clf(), return_utilities=True)
+def strat_query(qs, cand, qa=None):
+    """`qa`: optional query arguments (`X`, `y`, `sample_weight`, `fit_clf`, `utility_weight`; `clf` = "fresh" for an
+    unfitted clone that the strategy has to fit on a copy)."""
+    qa = dict(qa or {})
+    clf = get_clf()
+    if qa.pop("clf", None) == "fresh":
+        from sklearn.base import clone
+
+        clf = clone(clf)
+    return qs.query(cand, clf=clf, return_utilities=True, **qa)
+
+
+TRAIN_X = np.array([[0.0, 0.0], [4.0, 4.0], [0.0, 4.0], [4.0, 0.0], [2.0, 2.0], [1.0, 3.0], [3.0, 3.0], [1.0, 0.0]])
+TRAIN_Y = np.array([0, 1, 0, 1, 0, 1, 1, 0], dtype=float)
+
+
+def gen_query_args(rng, name, n_cand, like=None, need_xy=False):
+    """Arguments a stream `query` accepts besides the candidates.  `like`: the arguments of the history's regular calls;
+    an *extra* call then re-uses the same training data with other weights / labels half of the time (a cache keyed by
+    (X, y) alone shows there)."""
+    r = rng.random()
+    if like is None and r < 0.4 and not need_xy:
+        return {}
+    if like is not None and "X" in like and rng.random() < 0.6:
+        qa = dict(like)
+        if rng.random() < 0.7:
+            qa["sample_weight"] = np.array([rng.choice([0.25, 0.5, 1.0, 2.0, 4.0]) for _ in range(len(qa["y"]))])
+        else:
+            y = qa["y"].copy()
+            y[rng.randrange(len(y))] = np.nan
+            qa["y"] = y
+    else:
+        k = rng.randint(3, len(TRAIN_X))
+        idx = sorted(rng.sample(range(len(TRAIN_X)), k))
+        y = TRAIN_Y[idx].copy()
+        if rng.random() < 0.5:
+            y[rng.randrange(k)] = np.nan
+        qa = dict(X=TRAIN_X[idx].copy(), y=y)
+        if rng.random() < 0.5:
+            qa["sample_weight"] = np.array([rng.choice([0.5, 1.0, 2.0]) for _ in range(k)])
+        if rng.random() < 0.4:
+            qa["fit_clf"] = True
+            qa["clf"] = "fresh"
+    if name == "StreamProbabilisticAL" and rng.random() < 0.5:
+        qa["utility_weight"] = np.array([rng.choice([0.5, 1.0, 2.0]) for _ in range(n_cand)])
+    else:
+        qa.pop("utility_weight", None)
+    return qa
+
+
+def qa_json(qa):
+    return {k: (v.tolist() if isinstance(v, np.ndarray) else v) for k, v in (qa or {}).items()}
+
+
+def qa_load(d):
+    return {k: (np.array(v, dtype=float) if isinstance(v, list) else v) for k, v in (d or {}).items()}
 
 
 def strat_update(qs, cand, idx, ut):
@@ -690,20 +747,24 @@ def gen_candidates(rng, n):
     return np.array(pts, dtype=float)
 
 
-def run_history(make, ops, extra_at=None):
+def run_history(make, ops, extra_at=None, qargs=None):
     """ops: list of candidate chunks (np arrays). For every chunk: query, [extra queries], update.
-    extra_at: dict chunk index -> list of (position 'before'|'between', candidates) extra query calls.
+    extra_at: dict chunk index -> list of (position 'before'|'between', candidates[, query arguments]) extra query calls.
+    qargs: the other arguments of the regular query calls (one dict for the whole history).
     Returns outputs of the original calls, snapshots after every original call, violations found on the way."""
     qs = make()
     outs, snaps, problems = [], [], []
-    extra_at = extra_at or {}
+    extra_at = {k: [(e + (None,))[:3] for e in v] for k, v in (extra_at or {}).items()}
     with np.errstate(all="ignore"):
         for ci, cand in enumerate(ops):
+            qa = qargs
+            if qa and "utility_weight" in qa:
+                qa = dict(qa, utility_weight=np.resize(qa["utility_weight"], len(cand)))
             try:
-                for where, xc in extra_at.get(ci, []):
+                for where, xc, xqa in extra_at.get(ci, []):
                     if where == "before":
-                        strat_query(qs, xc)
-                idx, ut = strat_query(qs, cand)
+                        strat_query(qs, xc, xqa)
+                idx, ut = strat_query(qs, cand, qa)
             except Exception as e:  # noqa: BLE001  (a query that raises is an observable result, not a harness crash)
                 outs.append(("q", "raised " + err_enum(e)))
                 problems.append((ci, "query raised " + err_enum(e), []))
@@ -712,9 +773,9 @@ def run_history(make, ops, extra_at=None):
             outs.append(("q", [int(i) for i in idx], [f2bits(v) for v in np.asarray(ut, dtype=float)]))
             snaps.append(snap_obj(qs))
             try:
-                for where, xc in extra_at.get(ci, []):
+                for where, xc, xqa in extra_at.get(ci, []):
                     if where == "between":
-                        strat_query(qs, xc)
+                        strat_query(qs, xc, xqa)
             except Exception as e:  # noqa: BLE001
                 outs.append(("q-extra", "raised " + err_enum(e)))
                 problems.append((ci, "query raised " + err_enum(e), []))
